@@ -304,7 +304,12 @@ def r4_escaping(cx):
         # table hoisted to a class attribute / module constant and read through cls / self / the module
         for n in ast.walk(sf):
             if isinstance(n, ast.Call) and call_attr(n) == "get" and len(n.args) == 2 and U(n.args[0]) == U(n.args[1]):
-                ref = n.func.value
+                ref = ref0 = n.func.value
+                if isinstance(ref, ast.Name):
+                    # local alias bound once to the hoisted table
+                    d_ = assigns_to(sf, ref.id)
+                    if len(d_) == 1 and isinstance(d_[0], ast.Assign) and isinstance(d_[0].value, (ast.Attribute, ast.Name)) and not guard_texts(d_[0]):
+                        ref = d_[0].value
                 nm = ref.attr if isinstance(ref, ast.Attribute) and U(ref.value) in ("cls", "self", "PlaybookSerializer") else ref.id if isinstance(ref, ast.Name) else None
                 if nm is None:
                     continue
@@ -314,7 +319,7 @@ def r4_escaping(cx):
                 writes = [x for x in ast.walk(m.tree) if isinstance(x, (ast.Subscript, ast.Attribute)) and isinstance(getattr(x, "ctx", None), (ast.Store, ast.Del)) and nm in U(x)]
                 if cand and not writes:
                     tb = cand[:1]
-                    tbl_ref = U(ref)
+                    tbl_ref = U(ref0)
     ok = False
     if tb:
         try:
